@@ -6,12 +6,15 @@
 set -u
 name=$1; wt=$2; n=$3
 export GOFLAGS=-mod=mod GOPROXY=off
+# optional lane: REPO=<scratch copy of /repo> OUT=<scratch output root>; several lanes can run at once
+REPO=${REPO:-/repo}; OUT=${OUT:-/verif}
+export JDVC_REPO=$REPO JDVC_OUT=$OUT
 S=/verif/refactors/$name
 mkdir -p $S
 cp $wt/_seed/$n/patch.diff $S/patch.diff || exit 2
 cp $wt/_seed/$n/notes.md $S/notes.md 2>/dev/null
-cd /repo && git status --short | grep -v '^??' && { echo "/repo not clean"; exit 3; }
-git -C /repo apply $S/patch.diff || { echo "patch does not apply to /repo" | tee $S/result.txt; exit 2; }
+cd $REPO && git status --short | grep -v '^??' && { echo "/repo not clean"; exit 3; }
+git -C $REPO apply $S/patch.diff || { echo "patch does not apply to /repo" | tee $S/result.txt; exit 2; }
 files=$(grep '^+++ b/' $S/patch.diff | sed 's/^+++ b\///')
 props=""
 for f in $files; do
@@ -30,12 +33,12 @@ for f in $files; do
   esac
 done
 props=$(echo $props | tr ' ' '\n' | sort -u | tr '\n' ' ')
-(cd /repo/v2 && go build . ./jd 2>&1 | tail -2; cd /repo && go build . ./lib 2>&1 | tail -2) > $S/build.txt
+(cd $REPO/v2 && go build . ./jd 2>&1 | tail -2; cd $REPO && go build . ./lib 2>&1 | tail -2) > $S/build.txt
 : > $S/result.txt
 echo "files: $files" >> $S/result.txt
 for p in $props; do
   (cd /verif && timeout 1500 bin/jdvc check --property $p --tier quick > $S/check_$p.out 2>&1; rc=$?; echo "$p exit=$rc V=$(grep -c '^VIOLATION' $S/check_$p.out) U=$(grep -c '^UNDECIDED' $S/check_$p.out) E=$(grep -c '^ENGINE' $S/check_$p.out)" >> $S/result.txt; grep '^VIOLATION\|^ENGINE' $S/check_$p.out | head -3 | cut -c1-220 >> $S/result.txt)
 done
-git -C /repo checkout -- .
-git -C /repo clean -fdq -- v2 lib main.go 2>/dev/null
+git -C $REPO checkout -- .
+git -C $REPO clean -fdq -- v2 lib main.go 2>/dev/null
 cat $S/result.txt
